@@ -53,6 +53,16 @@ def _worker(part):
         }
 
 
+def _worker_batch(batch, deadline):
+    out = []
+    for part in batch:
+        if time.time() > deadline:
+            out.append(dict(_worker_skipped(part)))
+        else:
+            out.append(_worker(part))
+    return out
+
+
 def native_replay(replay_file):
     """Run in a *fresh* interpreter: no crosshair import, tpmstream straight from /repo/src."""
     p = subprocess.run(
@@ -123,26 +133,28 @@ def main(argv):
     for p in parts:
         p.setdefault("budget_s", 40)
         p.setdefault("path_timeout_s", 20)
+    # batches: a worker process handles several small partitions one after the other (fork + result
+    # transfer cost about 0.15 s each); long partitions first
     order = sorted(range(len(parts)), key=lambda i: -parts[i]["budget_s"])
     nproc = int(os.environ.get("VERIF_JOBS", "16"))
+    per_batch = max(1, min(12, len(parts) // (nproc * 6)))
+    batches = [order[i:i + per_batch] for i in range(0, len(order), per_batch)]
     results = [None] * len(parts)
     ctx = mp.get_context("fork")
-    # pre-import so that forked workers start warm
     import engine.explore  # noqa: F401
 
+    warmup()
     with ctx.Pool(processes=nproc, maxtasksperchild=1) as pool:
         pending = {}
-        it = iter(order)
-        active = 0
+        it = iter(range(len(batches)))
 
         def submit():
-            nonlocal active
-            for i in it:
+            for bi in it:
                 if time.time() > deadline:
-                    results[i] = dict(_worker_skipped(parts[i]))
+                    for i in batches[bi]:
+                        results[i] = dict(_worker_skipped(parts[i]))
                     continue
-                pending[i] = pool.apply_async(_worker, (parts[i],))
-                active += 1
+                pending[bi] = pool.apply_async(_worker_batch, ([parts[i] for i in batches[bi]], deadline))
                 return True
             return False
 
@@ -150,12 +162,13 @@ def main(argv):
             if not submit():
                 break
         while pending:
-            done = [i for i, r in pending.items() if r.ready()]
+            done = [bi for bi, r in pending.items() if r.ready()]
             if not done:
                 time.sleep(0.05)
                 continue
-            for i in done:
-                results[i] = pending.pop(i).get()
+            for bi in done:
+                for i, res in zip(batches[bi], pending.pop(bi).get()):
+                    results[i] = res
                 submit()
     # ---- failures -> replay -> known-findings filter
     known = [k for k in load_known() if k["property"] == pid]
@@ -224,6 +237,19 @@ def main(argv):
     if any(r["verdict"] == "error" for r in results):
         return 3
     return 0
+
+
+def warmup():
+    """One tiny exploration in the parent: CrossHair, z3 and tpmstream fill their lazy caches once
+    (about 6 s) instead of once per forked worker."""
+    from engine.explore import explore
+    import harness.spaces as sp
+
+    k = [k for k in sp.struct_keys() if k.endswith(":TPM2B_DIGEST")][0]
+    for prop in ("harness.props:strict_ref", "harness.props:warn_vs_strict"):
+        explore(sp.S(prop, "warmup", k, 3, budget=20))
+    c = sp.gen().commands(sp.cc_list()[0], minimal=True)[1][1]
+    explore(sp.M("harness.props:strict_ref", "warmup", sp.cmd_key(), "c", c, [len(c) - 1], budget=20))
 
 
 def _worker_skipped(part):
